@@ -337,7 +337,8 @@ CHECKS["C15"] = {
                        "workload:enums:interpreted", "workload:dumpmix:compiled", "workload:exprneg:compiled",
                        "workload:exprneg:interpreted", "workload:unionwrite:interpreted", "workload:longstr:compiled",
                        "workload:longstr:interpreted", "workload:grid:compiled", "workload:grid:interpreted",
-                       "workload:wsurrogate:compiled", "workload:wsurrogate:interpreted", "workload:construct:compiled",
+                       "workload:wsurrogate:compiled", "workload:wsurrogate:interpreted", "workload:enumunk:compiled", "workload:enumunk:interpreted",
+                       "workload:unionbits:compiled", "workload:unionbits:interpreted", "workload:construct:compiled",
                        "workload:construct:interpreted", "workload:lebdump:compiled", "workload:lebdump:interpreted",
                        "workload:anonlen:compiled", "workload:anonlen:interpreted"],
     "assumptions": ASSUME_COMMON + ["context switches are modelled at source-line granularity (CPython can switch "
